@@ -278,6 +278,9 @@ Lemma c17_eng_model : forall s x0 o,
   c17_eng (observe s x0) o (observe (fst (step s o)) (snd (step s o))) = true.
 Proof.
   intros s x0 o. destruct o; cbn [c17_eng]; auto.
+  - (* open of an open replica *)
+    rewrite is_open_obs. destruct (r s) eqn:Hr; [|reflexivity].
+    cbn [step]. rewrite Hr. cbn [fst snd ores observe is_ok res_eqb negb andb]. apply unchanged_refl.
   - (* write *)
     rewrite serving_obs, is_open_obs. destruct (serving_st s) eqn:E.
     + unfold serving_st in E. destruct (r s); [reflexivity|discriminate].
